@@ -254,7 +254,34 @@ func init() {
 								vrt.GoNamed("producerB", func() { play(pb, wb) })
 							}
 						}
-						return fw.Instance{Body: body, Check: overlapCheck(op.name+"/"+place, set), Outcome: set.outcome,
+						return fw.Instance{Body: body, Check: overlapCheck(op.name+"/"+place, set), Outcome: set.outcome, Recorders: set.all,
+							Nontrivial: func(r *vrt.Result) bool { return r.Switches > 2 && out.Len() > 0 }}
+					}})
+					if op.wb != nil || place != "bare" && place != "map" {
+						return
+					}
+					// the same with a producer that fails: an Error racing a value
+					c.Explore(fw.Case{Name: "2producers-error", Bound: bound, Opts: vrt.Options{MaxTime: int64(op.maxTime), DelayBounded: op.heavy}, Make: func() fw.Instance {
+						set := &recSet{}
+						out := h.NewRec("out")
+						out.YieldIn = true
+						set.add(out)
+						oa, pa := h.Pushed[int](h.NewSrc("a"), op.modeA)
+						ob, pb := h.Pushed[int](h.NewSrc("b"), h.Unsafe)
+						wa := op.wa
+						if wa == nil {
+							wa = ints(1, 2)
+						}
+						body := func() {
+							op.build(oa, ob, set, out, place)
+							vrt.GoNamed("producerA", func() { play(pa, wa) })
+							if op.oneDest {
+								vrt.GoNamed("producerA2", func() { play(pa, wordE(7)) })
+							} else {
+								vrt.GoNamed("producerB", func() { play(pb, wordE(7)) })
+							}
+						}
+						return fw.Instance{Body: body, Check: overlapCheck(op.name+"/"+place, set), Outcome: set.outcome, Recorders: set.all,
 							Nontrivial: func(r *vrt.Result) bool { return r.Switches > 2 && out.Len() > 0 }}
 					}})
 				}})
@@ -287,7 +314,7 @@ func init() {
 							vrt.GoNamed("p1", func() { s.NextWithContext(context.Background(), 1); s.Next(2); s.Complete() })
 							vrt.GoNamed("p2", func() { s.Next(7); s.Error(h.ErrSrc) })
 						}
-						return fw.Instance{Body: body, Check: overlapCheck(sk.name+"/"+place, set), Outcome: set.outcome,
+						return fw.Instance{Body: body, Check: overlapCheck(sk.name+"/"+place, set), Outcome: set.outcome, Recorders: set.all,
 							Nontrivial: func(r *vrt.Result) bool { return r.Switches > 2 }}
 					}})
 				}})
